@@ -470,3 +470,16 @@ def render_file(fs, rng=None, minimal=False, drop_semi=False, drop_last_section=
                         gap = " "
             out.append(gap)
     return "".join(out) + fs["epilogue"]
+
+
+def keyword_grammar(rng, nwords=48, wlen=5, nletters=6):
+    """a grammar with several hundred LR(0) states: prog : stmt | prog stmt ; stmt : <word> 'z'"""
+    letters = ["T%d" % i for i in range(nletters)]
+    words = set()
+    while len(words) < nwords:
+        words.add(tuple(rng.choice(letters) for _ in range(wlen)))
+    rules = [{"lhs": "N0", "rhs": ["N1"], "prec": None}, {"lhs": "N0", "rhs": ["N0", "N1"], "prec": None}]
+    for w in sorted(words):
+        rules.append({"lhs": "N1", "rhs": list(w) + ["TZ"], "prec": None})
+    return {"tokens": letters + ["TZ"], "lits": [], "prec": [], "nts": ["N0", "N1"], "start": "N0", "rules": rules,
+            "words": sorted(words)}
